@@ -971,7 +971,13 @@ def _size_ge_packet_end(body, bb, end=("packet", "end")):
         if c.kind != "cmp" or c.holds_on(s_) is None:
             continue
         for x, y, op in ((c.a, c.b, c.op), (c.b, c.a, {"Lt": "Gt", "Gt": "Lt", "Le": "Ge", "Ge": "Le", "Eq": "Eq", "Ne": "Ne"}[c.op])):
-            if _sfield(body, x) == size and _sfield(body, y) == end:
+            y_is_end = _sfield(body, y) == end
+            if not y_is_end and end == ("packet", "end") and y is not None and y.get("k") != "const":
+                # `size.checked_sub(packet.len())`: the length of the range is its end while its start is only ever 0
+                ay = body.atoms(y)
+                y_is_end = any(q[0] == "call" and q[1].endswith("::len") for q in ay) and any(q[0] == "field" and q[1] == RXS_ and q[2] == "packet" for q in ay) \
+                    and _packet_start_is_zero(body)
+            if _sfield(body, x) == size and y_is_end:
                 eff = op if c.holds_on(s_) else {"Lt": "Ge", "Ge": "Lt", "Gt": "Le", "Le": "Gt", "Eq": "Ne", "Ne": "Eq"}[op]
                 if eff in ("Ge", "Gt", "Eq"):
                     return d
@@ -1172,7 +1178,11 @@ def value_range(body, o, depth=0, seen=None):
                 r = None
         elif d[0] == "call":
             nm = callee_resolved(d[2]) or ""
-            r = _range_fn(nm)
+            from mir import int_widening as _iw
+            if _iw(d[2]) is not None and d[2]["ops"]:
+                r = value_range(body, d[2]["ops"][0], depth + 1, seen)      # `usize::from(x)`: the value of x
+            else:
+                r = _range_fn(nm)
         if r is None:
             return tr
         acc = r if acc == "none" else _join(acc, r)
@@ -1495,6 +1505,120 @@ def d_subid(site):
     return None
 
 
+def d_tablebit(site):
+    """`x << bit` inside a private helper of the codec that folds a table of (flag, bit position) pairs into a byte
+    (`pack_flags(base, &[(cond, 7), ..])`): the shift amount is the second component of a table entry, and every call
+    of the helper in the crate hands over an array literal whose bit positions are constants below the width of the
+    shifted type. Decided over all call sites; void as soon as one of them passes anything else."""
+    if site.kind != "assert" or not str(site.extra.get("msg", "")).startswith("Overflow(Shl)"):
+        return None
+    ctx = _CTX[0]
+    body = site.body
+    if ctx is None or body.fn["kind"] != "closure":
+        return None
+    ops = site.extra.get("ops") or []
+    if len(ops) != 2 or ops[1].get("k") == "const":
+        return None
+    # the amount is a component of the closure's last parameter (the table entry)
+    at = body.atoms(ops[1])
+    nparam = body.fn["arg_count"]
+    if not any(a[0] == "param" and a[1] == nparam for a in at):
+        return None
+    parent = body.fn.get("parent") or re.sub(r"::\{closure#\d+\}$", "", body.path)
+    pf = ctx.facts.fn(parent)
+    if pf is None or pf["kind"] != "fn" or pf.get("vis") == "pub" or not parent.startswith("codec::"):
+        return None
+    slice_params = [k for k, t_ in enumerate(pf.get("sig_in") or []) if re.fullmatch(r"&('\w+ )?\[\(bool, u8\)\]", t_ or "")]
+    if len(slice_params) != 1:
+        return None
+    k = slice_params[0]
+    width = 8
+    n_sites = 0
+    for f_ in ctx.facts.fns:
+        cb = ctx.world.body(f_["path"])
+        for i, t in cb.calls():
+            if strip_generics(callee_resolved(t) or callee_name(t) or "") != strip_generics(parent):
+                continue
+            n_sites += 1
+            if k >= len(t["ops"]):
+                return None
+            cur = t["ops"][k]
+            arr = None
+            for _ in range(6):
+                if cur.get("k") not in ("move", "copy") or [p for p in cur["pl"]["p"] if p != "deref"]:
+                    return None
+                ds = cb.whole_defs(cur["pl"]["l"])
+                if len(ds) != 1 or ds[0][0] != "stmt":
+                    return None
+                rv = ds[0][3]["rv"]
+                if rv["k"] == "agg" and rv.get("what") == "array":
+                    arr = rv
+                    break
+                if rv["k"] in ("use", "cast"):
+                    cur = rv["op"]
+                elif rv["k"] == "ref":
+                    cur = {"k": "copy", "pl": rv["pl"]}
+                else:
+                    return None
+            if arr is None:
+                return None
+            for o in arr["ops"]:
+                oo = cb.origin(o, through_calls=False)
+                if oo[0] != "agg" or oo[2]["rv"].get("what") != "tuple" or len(oo[2]["rv"]["ops"]) != 2:
+                    return None
+                v = cb.fold(oo[2]["rv"]["ops"][1])
+                if v is None or not (0 <= v < width):
+                    return None
+    if n_sites == 0:
+        return None
+    return "D-table: shift by a bit position taken from the table of %s; all %d call site(s) pass array literals whose positions are constants below %d" % (parent.split("::")[-1], n_sites, width)
+
+
+def d_callsites(site):
+    """An overflow / shift-range check inside a small private function whose arguments are constants at every call (the
+    position of a byte: `septet(b2, 2)` computes `(b & 0x7f) << (7 * idx)`): the function body is interpreted abstractly
+    (intervals) once per call site of the crate, with the constant arguments that call passes and the full range of their
+    type for the others; the site is discharged when the check cannot fail at any of them."""
+    if site.kind != "assert":
+        return None
+    ctx = _CTX[0]
+    body = site.body
+    f = body.fn
+    if ctx is None or f["kind"] != "fn" or f.get("vis") == "pub" or body.fn.get("flat") or not (1 <= f["arg_count"] <= 4):
+        return None
+    RANGE = {"u8": (0, 255), "u16": (0, 65535), "u32": (0, 2 ** 32 - 1), "u64": (0, 2 ** 64 - 1), "usize": (0, 2 ** 64 - 1), "bool": (0, 1)}
+    ptys = [body.locals[k]["ty"] for k in range(1, f["arg_count"] + 1)]
+    if any(t_ not in RANGE for t_ in ptys):
+        return None
+    if len([1 for blk in body.blocks if not blk["cleanup"]]) > 40:
+        return None
+    import absint
+    n_sites = 0
+    for g in ctx.facts.fns:
+        cb = ctx.world.body(g["path"])
+        for i, t in cb.calls():
+            if strip_generics(callee_resolved(t) or callee_name(t) or "") != strip_generics(body.path):
+                continue
+            if len(t["ops"]) != f["arg_count"]:
+                return None
+            n_sites += 1
+            args = {}
+            for k, o in enumerate(t["ops"]):
+                v = cb.fold(o)
+                lo, hi = RANGE[ptys[k]]
+                args[k + 1] = absint.iv(v, v) if isinstance(v, int) and not isinstance(v, bool) and lo <= v <= hi else absint.iv(lo, hi)
+            ex = absint.Explorer(body, max_bytes=0, max_states=600)
+            try:
+                ex.run(args)
+            except Exception:
+                return None
+            if ex.unbounded or any(bb == site.bb for bb, _, _ in ex.failures):
+                return None
+    if n_sites == 0:
+        return None
+    return "D-callsites: the check cannot fail for the arguments of any of the %d call(s) of %s in the crate (constants as passed, full range of the type otherwise; interval interpretation of the body)" % (n_sites, short_ty(strip_generics(body.path)))
+
+
 def d_rspack(site):
     """The `_ => unreachable!()` arm of the match a handle operation applies to the value its own oneshot receiver
     yields (written in the operation, in a closure of it, or in a private helper of the client layer that the
@@ -1695,7 +1819,7 @@ def discharge(ctx, site, ledger):
     r = d_derive(site)
     if r:
         return r
-    for f in (d_const, d_guard, d_range, d_posrange, d_fold, d_minhdr, d_subid, d_authtx, d_rspack, d_memlen, d_lenfit, d_len, d_cmp, d_quota, d_posindex, d_keydomain, d_stream, d_varint):
+    for f in (d_const, d_guard, d_range, d_posrange, d_fold, d_minhdr, d_subid, d_authtx, d_rspack, d_tablebit, d_callsites, d_memlen, d_lenfit, d_len, d_cmp, d_quota, d_posindex, d_keydomain, d_stream, d_varint):
         r = f(site)
         if r:
             return r
